@@ -98,6 +98,26 @@ Fixpoint iterate (und : bool) (n k : nat) (R : mat Z) (s : list Z)
 Definition randmio_signed (und : bool) (n : nat) (R : mat Z) (itr : nat) (s : list Z) :=
   iterate und n (n_iter und n itr) R s.
 
+(* does the run end because pick_four_unique_nodes_quickly never returns?  In the code that is the
+   unbounded recursion of the retry (RecursionError): certain for n <= 3 as soon as one iteration is
+   made (pick4_needs_4), impossible on a recorded stream of a run that returned.  [iterate] itself is
+   total (it returns the current state); this flag tells the two situations apart. *)
+Fixpoint runs_out (und : bool) (n k : nat) (R : mat Z) (s : list Z) : bool :=
+  match k with
+  | O => false
+  | S k' =>
+    match attempt und n (S (max_att und n)) R s with
+    | Exhausted => true
+    | NoSwap s' => runs_out und n k' R s'
+    | Swapped R' _ s' => runs_out und n k' R' s'
+    end
+  end.
+
+(* the routine as the caller sees it: None = the call does not return (RecursionError) *)
+Definition randmio_signed_ret (und : bool) (n : nat) (R : mat Z) (itr : nat) (s : list Z)
+  : option (mat Z * list Z * list (quad * mat Z)) :=
+  if runs_out und n (n_iter und n itr) R s then None else Some (randmio_signed und n R itr s).
+
 (* ---------- quantities the property speaks about ---------- *)
 Definition rowsum (phi : Z -> Z) (R : mat Z) (n i : nat) : Z := sumn (fun j => phi (R i j)) n.
 Definition colsum (phi : Z -> Z) (R : mat Z) (n j : nat) : Z := sumn (fun i => phi (R i j)) n.
@@ -125,10 +145,13 @@ Definition run_pick4 (n : nat) (s : list Z) : option (list nat * nat) :=
 
 (* result: final matrix, eff, unread draws, trace of (abcd, matrix) after every accepted swap *)
 Definition run_randmio_signed (und : bool) (rows : list (list Z)) (itr : nat) (s : list Z)
-  : list (list Z) * (nat * nat) * list (list nat * list (list Z)) :=
+  : option (list (list Z) * (nat * nat) * list (list nat * list (list Z))) :=
   let n := length rows in
-  let '(Rf, sf, tr) := randmio_signed und n (of_rows 0 rows) itr s in
-  (zrows n Rf, (length tr, length sf), map (fun e => (quad_list (fst e), zrows n (snd e))) tr).
+  match randmio_signed_ret und n (of_rows 0 rows) itr s with
+  | None => None
+  | Some (Rf, sf, tr) =>
+    Some (zrows n Rf, (length tr, length sf), map (fun e => (quad_list (fst e), zrows n (snd e))) tr)
+  end.
 
 (* ---------- the invariant relation between the input R and any later state R' ---------- *)
 (* precondition of the undirected routine: symmetric input (the directed one has none) *)
